@@ -164,6 +164,7 @@ def run(rep):
                    "rewrite_with_comments must receive `self.span()` and `self.leaf_spans()` of the node being formatted "
                    f"(span from {sp and sp[0]}, leaf spans from {ls and ls[0]}, same receiver: {same})")
     rep.floor("R4-comment-weaving-uses-own-spans", 10, n4)
+    rule_comment_termination(rep)
 
     # ---- advisory: LeafSpans coverage -------------------------------------------------------------------------------------
     adv = []
@@ -202,3 +203,56 @@ def _propagated(fn, call_t):
                         if tt["k"] == "call" and (tt.get("rn") or tt.get("fp", "")).endswith("from_residual") and tt.get("d", {}).get("l") == 0:
                             return True
     return False
+
+
+def rule_comment_termination(rep):
+    """R5: a `//` comment extends to the end of its line, so whatever the formatter writes after a comment's text must start on a new
+    line. In insert_after_span a comment is written either with `writeln!` or with `write!`; the `write!` form is allowed only under
+    a condition that guarantees that the text following it starts with a newline (`indent.starts_with('\\n')`: the separator written
+    before the next comment / the code). Otherwise the next comment and the rest of the code line become part of the first comment."""
+    from lib import tab
+    rel = "swayfmt/src/comments.rs"
+    t = tab.tree(rel)
+    f = tab.fn(t, "insert_after_span")
+    lets = {names[0]: tab.show(i_) for l_, names, _, i_ in tab.lets(f["body"]) if names and i_ is not None}
+
+    def parents_of(root, target):
+        stack = [(root, [])]
+        while stack:
+            n, path = stack.pop()
+            if n is target:
+                return path
+            for v in (n.values() if isinstance(n, dict) else n if isinstance(n, list) else []):
+                if isinstance(v, (dict, list)):
+                    stack.append((v, path + ([n] if isinstance(n, dict) else [])))
+        return []
+    # only line comments (`//`) need it: the Trailing and Newlined arms of the match over the comment kind
+    line_arms = [a for m_ in tab.matches_in(f["body"]) if "comment_kind" in tab.show(m_.get("expr") or {}) for a in m_["arms"]
+                 if re.search(r"CommentKind::(Trailing|Newlined)$", tab.show(a["pat"]))]
+    if len(line_arms) != 2:
+        raise AnalysisError(f"insert_after_span: expected the Trailing and Newlined arms of the match over comment_kind, found {len(line_arms)}")
+    writes = [n for a in line_arms for n in tab.walk(a["body"]) if n.get("k") == "Macro" and n.get("name") in ("write", "writeln") and
+              any("span().as_str()" in tab.show(x) for x in n.get("args", []))]
+    n5 = 0
+    for w in writes:
+        if w["name"] == "writeln":
+            n5 += 1
+            rep.ob("R5-comment-text-ends-its-line", f"insert_after_span|writeln@{n5}", True, rel, w["l"], "")
+            continue
+        n5 += 1
+        fmt = [a for a in w["args"] if a.get("k") == "Lit" and a.get("t") == "str"]
+        if fmt and fmt[0]["v"].endswith("\n"):
+            rep.ob("R5-comment-text-ends-its-line", f"insert_after_span|write@{n5}", True, rel, w["l"], "")
+            continue
+        conds = []
+        for a in parents_of(f["body"], w):
+            if a.get("k") == "If" and any(x is w for x in tab.walk(a["then"])):
+                c = tab.show(a["cond"])
+                c = lets.get(c, c) if re.fullmatch(r"\w+", c) else c
+                conds.append(c)
+        ok = any(re.search(r"indent\.starts_with\(.?(\n|\\n)", c) for c in conds)
+        rep.ob("R5-comment-text-ends-its-line", f"insert_after_span|write@{n5}", ok, rel, w["l"],
+               f"a comment is written without a line end under the condition(s) {conds}: nothing guarantees that what follows starts on a new line, so the next "
+               "comment or the rest of the code line is swallowed into this `//` comment (tokens disappear from the program)")
+    rep.floor("R5-comment-text-ends-its-line", 4, n5)
+
